@@ -184,6 +184,19 @@ func (g *vfGen) genC19() {
 			g.emit(vfOp("ziplayout", z))
 		}
 	}
+	// archives without entries whose *comment* (written by the standard writer, after the 22-byte end record)
+	// carries marker text: there is no entry name, so no marker
+	for _, mk := range []string{"META-INF/MANIFEST.MF", "word/document.xml", "xl/workbook.xml", "ppt/slides", "classes.dex", "AndroidManifest.xml", "[Content_Types].xml"} {
+		for _, lead := range []int{0, 7, 8, 9, 30} {
+			var buf bytes.Buffer
+			w := vzip.NewWriter(&buf)
+			w.SetComment(strings.Repeat("c", lead) + mk)
+			w.Close()
+			z := buf.Bytes()
+			g.emit(vfOp("walk", z, 0))
+			g.emit(vfOp("zip", z))
+		}
+	}
 	// an archive without any entry (a standard writer emits just the end-of-central-directory record) and
 	// archives with a single unrelated entry: no marker, plain application/zip
 	emit(nil)
